@@ -122,8 +122,13 @@ def _run(sim, case, r):
     missing = []
     cb_publishes = {'n': 0}
 
+    class _CbBoom(Exception):
+        """the application's callback fails (after it has taken note): its own business - the instance goes on as if it had returned"""
+
     def on_missing(i):
         missing.append(sim.vl.now_ms())
+        if case.get('callback_raises') and len(missing) % 2 == 1:
+            raise _CbBoom(len(missing))
         if case.get('publish_in_callback') and cb_publishes['n'] < 3:
             # the application reacts to new data by producing some itself, from inside the (non-blocking) callback
             cb_publishes['n'] += 1
@@ -278,7 +283,10 @@ def _run(sim, case, r):
                         sim.receive_errors.append(exc_site(e) + f': {e!r}'[:200])
                 sim.vl.call(call)
                 sim.vl.settle()
-            errs = sim.vl.collect_errors()
+            errs = [e_ for e_ in sim.vl.collect_errors() if e_['type'] != '_CbBoom']
+            if any('_CbBoom' in e_ for e_ in sim.receive_errors):
+                flags.add('callback-raised')
+                sim.receive_errors[:] = [e_ for e_ in sim.receive_errors if '_CbBoom' not in e_]
             if sim.receive_errors or errs:
                 what = sim.receive_errors[0].split(':')[0] if sim.receive_errors else errs[0]['type']
                 kind = 'malformed-vector' if (malformed or broken) else 'overclaim' if overclaim else 'valid-vector'
@@ -525,7 +533,7 @@ def _ops():
 
 
 def _case():
-    return st.fixed_dictionaries({'start_seq': st.sampled_from([0, 1, 2, 3, 0, 1, -1]), 'awaiting_validator': st.booleans(), 'publish_before_start': st.sampled_from([0, 0, 0, 1, 2]), 'publish_in_callback': st.sampled_from([False, False, True]), 'jitter': st.lists(st.integers(0, 65535), min_size=1, max_size=4),
+    return st.fixed_dictionaries({'start_seq': st.sampled_from([0, 1, 2, 3, 0, 1, -1]), 'awaiting_validator': st.booleans(), 'publish_before_start': st.sampled_from([0, 0, 0, 1, 2]), 'publish_in_callback': st.sampled_from([False, False, True]), 'callback_raises': st.sampled_from([False, False, False, True]), 'jitter': st.lists(st.integers(0, 65535), min_size=1, max_size=4),
                                   'ops': _ops()})
 
 
